@@ -365,15 +365,26 @@ fn run_case(stream: &str, f: &[&str]) -> String {
             let cs = vh::complete_path(&word, f[5] == "1");
             let (toks, _) = vh::parse_line(&word);
             let sep = toks.last().map(|t| t.0.clone()).unwrap_or_default();
+            // the order of entries with one and the same inserted text is read_dir's: made canonical here (after checking
+            // that the list came back sorted by inserted text)
+            let sorted = cs.windows(2).all(|w| w[0].0 <= w[1].0);
             let mut outs: Vec<String> = vec![];
+            let mut keyed: Vec<(String, String)> = vec![];
             for (comp, disp, sfx) in cs {
                 let is_dir = sfx == "/";
                 let line = format!("{} {}{}", prog, comp, if is_dir { format!("/{}", c20_closing(&sep)) } else { String::new() });
                 let d = match &disp { Some(x) => hex(x), None => "~".to_string() };
                 let k = if is_dir { "/".to_string() } else if sfx.is_empty() { "d".to_string() } else { sfx.clone() };
-                outs.push(format!("{}@{}@{}@{}", hex(&comp), d, k, c20_plan_line(sh, &line)));
+                keyed.push((comp.clone(), format!("{}@{}@{}@{}", hex(&comp), d, k, c20_plan_line(sh, &line))));
             }
             c20_leave(dirs);
+            keyed.sort();
+            for (_, o) in keyed {
+                outs.push(o);
+            }
+            if !sorted {
+                outs.insert(0, "UNSORTED".to_string());
+            }
             if outs.is_empty() { "[]".to_string() } else { outs.join("&") }
         }),
         // tree, patterns: what the glob crate answers in the generated directory, in the `g=` syntax of the environment field
